@@ -21,10 +21,12 @@
 
 #include "opentelemetry/sdk/logs/batch_log_record_processor.h"
 #include "opentelemetry/sdk/logs/batch_log_record_processor_options.h"
+#include "opentelemetry/sdk/logs/batch_log_record_processor_runtime_options.h"
 #include "opentelemetry/sdk/logs/exporter.h"
 #include "opentelemetry/sdk/logs/read_write_log_record.h"
 #include "opentelemetry/sdk/trace/batch_span_processor.h"
 #include "opentelemetry/sdk/trace/batch_span_processor_options.h"
+#include "opentelemetry/sdk/trace/batch_span_processor_runtime_options.h"
 #include "opentelemetry/sdk/trace/exporter.h"
 #include "opentelemetry/sdk/trace/span_data.h"
 #include "sched_harness.h"
@@ -56,6 +58,7 @@ struct Cfg
   bool xflush_result        = true;
   int64_t xshutdown_latency_us = 0;
   bool xshutdown_result     = true;
+  int ctor                  = 0;  // 0: (exporter, options)  1: (exporter, options, runtime options)  2: logs only, (exporter, queue, delay, batch)
   std::vector<std::vector<Op>> producers;
   std::vector<std::vector<Op>> controllers;
   std::vector<Op> tail;  // main thread, after joining everybody
@@ -108,7 +111,7 @@ inline std::string describe(const Cfg &c)
                   ",fail_every=" + std::to_string(c.export_fail_every) + "} xflush{lat=" +
                   show_us(c.xflush_latency_us) + ",res=" + (c.xflush_result ? "1" : "0") +
                   "} xshutdown{lat=" + show_us(c.xshutdown_latency_us) + ",res=" +
-                  (c.xshutdown_result ? "1" : "0") + "}\n";
+                  (c.xshutdown_result ? "1" : "0") + "} ctor=" + std::to_string(c.ctor) + "\n";
   auto prog = [](const std::vector<Op> &p) {
     std::string o;
     for (auto &op : p)
@@ -221,6 +224,23 @@ inline Cfg gen_cfg(vh::Reader &rd, bool logs, int bias)
         break;
     }
   }
+  // which constructor builds the processor
+  c.ctor = static_cast<int>(rd.weighted({6, 2, 2}));
+  if (c.ctor == 2 && !logs)
+    c.ctor = 1;
+  // a queue that can hold everything the scenario produces: then NO record produced before the
+  // first Shutdown may be missing, whatever the interleaving
+  if (rd.chance(bias == 1 ? 25 : 10))
+  {
+    int total = 0;
+    for (auto &p : c.producers)
+      for (auto &op : p)
+        total += op.kind == Op::PRODUCE;
+    for (auto &op : c.tail)
+      total += op.kind == Op::PRODUCE;
+    if (c.queue < total)
+      c.queue = total;
+  }
   return c;
 }
 
@@ -240,7 +260,7 @@ public:
       const otel::nostd::span<std::unique_ptr<RecordableT>> &batch) noexcept override
   {
     ExportRec r;
-    r.entry = s_.steps();
+    r.entry = s_.stamp();
     if (++h_.in_flight > h_.max_in_flight)
       h_.max_in_flight = h_.in_flight;
     for (auto &rec : batch)
@@ -260,7 +280,7 @@ public:
     else
       vsched::this_thread::yield();
     --h_.in_flight;
-    r.exit = s_.steps();
+    r.exit = s_.stamp();
     h_.exports.push_back(std::move(r));
     bool fail = cfg_.export_fail_every > 0 && (calls_ % cfg_.export_fail_every) == 0;
     return fail ? otel::sdk::common::ExportResult::kFailure : otel::sdk::common::ExportResult::kSuccess;
@@ -269,11 +289,11 @@ public:
   bool ForceFlush(std::chrono::microseconds) noexcept override
   {
     XCall x;
-    x.entry = s_.steps();
+    x.entry = s_.stamp();
     vsched::point();
     if (cfg_.xflush_latency_us > 0)
       vsched::this_thread::sleep_for(std::chrono::microseconds(cfg_.xflush_latency_us));
-    x.exit = s_.steps();
+    x.exit = s_.stamp();
     h_.xflush.push_back(x);
     return cfg_.xflush_result;
   }
@@ -281,11 +301,11 @@ public:
   bool Shutdown(std::chrono::microseconds) noexcept override
   {
     XCall x;
-    x.entry = s_.steps();
+    x.entry = s_.stamp();
     vsched::point();
     if (cfg_.xshutdown_latency_us > 0)
       vsched::this_thread::sleep_for(std::chrono::microseconds(cfg_.xshutdown_latency_us));
-    x.exit = s_.steps();
+    x.exit = s_.stamp();
     h_.xshutdown.push_back(x);
     return cfg_.xshutdown_result;
   }
@@ -328,6 +348,9 @@ struct SpanTraits
     o.max_queue_size        = static_cast<size_t>(c.queue);
     o.max_export_batch_size = static_cast<size_t>(c.batch);
     o.schedule_delay_millis = std::chrono::milliseconds(c.delay_ms);
+    if (c.ctor == 1)
+      return std::unique_ptr<Processor>(
+          new Processor(std::move(e), o, otel::sdk::trace::BatchSpanProcessorRuntimeOptions{}));
     return std::unique_ptr<Processor>(new Processor(std::move(e), o));
   }
   static void produce(Processor &p, int producer, int seq)
@@ -350,6 +373,13 @@ struct LogTraits
     o.max_queue_size        = static_cast<size_t>(c.queue);
     o.max_export_batch_size = static_cast<size_t>(c.batch);
     o.schedule_delay_millis = std::chrono::milliseconds(c.delay_ms);
+    if (c.ctor == 1)
+      return std::unique_ptr<Processor>(
+          new Processor(std::move(e), o, otel::sdk::logs::BatchLogRecordProcessorRuntimeOptions{}));
+    if (c.ctor == 2)
+      return std::unique_ptr<Processor>(new Processor(std::move(e), static_cast<size_t>(c.queue),
+                                                      std::chrono::milliseconds(c.delay_ms),
+                                                      static_cast<size_t>(c.batch)));
     return std::unique_ptr<Processor>(new Processor(std::move(e), o));
   }
   static void produce(Processor &p, int producer, int seq)
@@ -377,11 +407,11 @@ void run_scenario(vh::Case &c, const Cfg &cfg, History &h)
       ProduceRec r;
       r.producer = producer;
       r.seq      = next_seq[static_cast<size_t>(producer)]++;
-      r.call     = s.steps();
+      r.call     = s.stamp();
       r.call_ns  = s.now_ns();
       uint64_t own0 = s.my_steps();
       Traits::produce(P, producer, r.seq);
-      r.ret       = s.steps();
+      r.ret       = s.stamp();
       r.ret_ns    = s.now_ns();
       r.own_steps = s.my_steps() - own0;
       h.produced.push_back(r);
@@ -392,11 +422,11 @@ void run_scenario(vh::Case &c, const Cfg &cfg, History &h)
       r.thread     = thread;
       r.timeout_us = op.arg;
       auto to      = op.arg < 0 ? (std::chrono::microseconds::max)() : std::chrono::microseconds(op.arg);
-      r.call       = s.steps();
+      r.call       = s.stamp();
       r.call_ns    = s.now_ns();
       uint64_t own0 = s.my_steps();
       r.result     = r.is_flush ? P.ForceFlush(to) : P.Shutdown(to);
-      r.ret        = s.steps();
+      r.ret        = s.stamp();
       r.ret_ns     = s.now_ns();
       r.own_steps  = s.my_steps() - own0;
       h.ctl.push_back(r);
@@ -432,10 +462,10 @@ void run_scenario(vh::Case &c, const Cfg &cfg, History &h)
     d.is_flush   = false;
     d.thread     = -2;
     d.timeout_us = -1;
-    d.call       = s.steps();
+    d.call       = s.stamp();
     d.call_ns    = s.now_ns();
     proc.reset();
-    d.ret       = s.steps();
+    d.ret       = s.stamp();
     d.ret_ns    = s.now_ns();
     d.result    = true;
     d.own_steps = 0;
@@ -563,8 +593,14 @@ inline void check_delivery(vh::Case &c, const Cfg &cfg, const History &h)
     // producers never wait for the exporter
     // (virtual time only advances while NO thread is runnable, plus 100 ns per clock read, so a
     // produce call that does not block spans next to no virtual time whatever the schedule)
-    if (cfg.export_latency_us >= 3000)
-      VH_CHECK(c, r.ret_ns - r.call_ns < static_cast<uint64_t>(cfg.export_latency_us) * 500,
+    // The smallest injected exporter latency (Export, ForceFlush or Shutdown of the exporter) is the
+    // yardstick: a produce call that spans half of it waited for an exporter call to finish.
+    int64_t yard = 0;
+    for (int64_t l : {cfg.export_latency_us, cfg.xflush_latency_us, cfg.xshutdown_latency_us})
+      if (l >= 300 && (yard == 0 || l < yard))
+        yard = l;
+    if (yard > 0)
+      VH_CHECK(c, r.ret_ns - r.call_ns < static_cast<uint64_t>(yard) * 500,
                "producer call p" << r.producer << "#" << r.seq << " took " << (r.ret_ns - r.call_ns)
                                  << " virtual ns: it waited for the exporter");
   }
@@ -689,6 +725,19 @@ inline void common_tags(vh::Case &c, const Cfg &cfg, const History &h)
     c.tag("export-slow(>=3ms)");
   if (h.rs.forced_switches)
     c.tag("quantum-switch");
+  int total = 0;
+  for (auto &r : h.produced)
+    total += 1;
+  if (cfg.queue >= total && total > 0)
+    c.tag("queue-holds-everything");
+  c.tag("ctor-" + std::to_string(cfg.ctor));
+  uint64_t first_shutdown = UINT64_MAX;
+  for (auto &f : h.ctl)
+    if (!f.is_flush)
+      first_shutdown = std::min(first_shutdown, f.call);
+  for (auto &f : h.ctl)
+    if (f.is_flush && !f.result && f.timeout_us < 0 && f.ret < first_shutdown && cfg.xflush_result)
+      c.tag("flush-max-timeout-returned-false");
 }
 
 inline std::string schedule_text()
